@@ -166,3 +166,84 @@ Proof.
   - apply incl_refl.
 Qed.
 Print Assumptions C07_node_premises_satisfiable_with_ignored_and_unscaled_nodes.
+
+(* ---------------------------------------------------------------------------------------------------------------------------------- *)
+(* The CYCLIC class in node mode (kLeastAbsErrorsCycles, flow_attr_origin = 'node'), in the caller's terms (NodeWalkErrE2E.v): the k walks
+   are walks of the caller's graph (DilworthNode.nwalk, additional starts S / ends T included), a walk may visit a node several times and
+   every visit counts: the error term at a counting node v is scale(v) * |weight(v) - sum_i w_i * visits_i(v)|.  Relative to the solver
+   specification and WITHIN THE CAPS of the encoder (node_klaec_adm = the model's cap predicate on the expanded tuple, spelled out in
+   visits / traversals by C07_node_cyclic_caps_reading): the objective of an optimal satisfying assignment of the node-expanded
+   instance's model is the least total error over all such weighted node walks. *)
+From FP Require Import WalkEncRows WalkErrEnc NodeWalkE2E NodeWalkErrE2E.
+Theorem C07_node_cyclic_optimal_within_caps :
+  forall (V : list node) (E : list PathEnc.edge) (S T : list node) (s t : node) (Wn : list node) (fq sc : node -> Q) (ign : list node)
+         (isint : bool),
+  ~ In s (expV V) -> ~ In t (expV V) -> s <> t -> (forall e, In e E -> In (fst e) V /\ In (snd e) V) -> NoDup V -> NoDup E ->
+  (forall v, In v V -> ~ In v ign -> In v Wn) ->
+  forall (k : nat) (a : var -> Q),
+  (forall v, In v V -> (0 <= sc v)%Q) -> (isint = true -> forall v, In v (NodeErrE2E.nodes_basic V ign sc) -> is_int (fq v)) ->
+  sat a (encode_klae_cycles (node_werr_inst V E S T s t Wn fq sc ign isint k)) ->
+  (forall b, sat b (encode_klae_cycles (node_werr_inst V E S T s t Wn fq sc ign isint k)) ->
+     (objective a (encode_klae_cycles (node_werr_inst V E S T s t Wn fq sc ign isint k)) <=
+      objective b (encode_klae_cycles (node_werr_inst V E S T s t Wn fq sc ign isint k)))%Q) ->
+  (exists Pn w, node_walks V E S T k Pn /\ node_klaec_adm V E S T s t Wn fq sc ign isint k Pn w /\
+                (node_klaec_cost V fq sc ign k Pn w == objective a (encode_klae_cycles (node_werr_inst V E S T s t Wn fq sc ign isint k)))%Q) /\
+  (forall Pn w, node_walks V E S T k Pn -> node_klaec_adm V E S T s t Wn fq sc ign isint k Pn w ->
+                (objective a (encode_klae_cycles (node_werr_inst V E S T s t Wn fq sc ign isint k)) <= node_klaec_cost V fq sc ign k Pn w)%Q).
+Proof. exact node_klaec_optimal. Qed.
+Print Assumptions C07_node_cyclic_optimal_within_caps.
+
+(* the cost is what the text says: the sum over the counting nodes of scale * |weight - sum of weight_i * visits_i| *)
+Theorem C07_node_cyclic_cost_unfolded :
+  forall (V : list node) (fq sc : node -> Q) (ign : list node) (k : nat) (Pn : N -> list node) (w : N -> Q),
+  node_klaec_cost V fq sc ign k Pn w =
+  sumq (fun v => (sc v * Qabs.Qabs (fq v - sumq (fun i => (w i * inject_Z (visits v (Pn i)))%Q) (layers k)))%Q) (NodeErrE2E.nodes_basic V ign sc).
+Proof. exact node_klaec_cost_unfolded. Qed.
+Print Assumptions C07_node_cyclic_cost_unfolded.
+
+(* what "within the caps" says about the caller's walks: weights in [0, w_max] of the requested type, visits of v at most the cap of v's
+   node edge, traversals of (u,v) at most the cap of the connecting edge, weight * visits <= w_max, deviation <= w_max *)
+Theorem C07_node_cyclic_caps_reading :
+  forall (V : list node) (E : list PathEnc.edge) (S T : list node) (s t : node) (Wn : list node) (fq sc : node -> Q) (ign : list node)
+         (isint : bool),
+  ~ In s (expV V) -> ~ In t (expV V) -> (forall e, In e E -> In (fst e) V /\ In (snd e) V) ->
+  (forall v, In v V -> ~ In v ign -> In v Wn) ->
+  forall (k : nat) (Pn : N -> list node) (w : N -> Q),
+  node_walks V E S T k Pn -> node_klaec_adm V E S T s t Wn fq sc ign isint k Pn w ->
+  (forall i, In i (layers k) -> (0 <= w i <= x_wmax (node_werr_inst V E S T s t Wn fq sc ign isint k))%Q /\ (isint = true -> is_int (w i))) /\
+  (forall i v, In i (layers k) -> In v V ->
+     (inject_Z (visits v (Pn i)) <= cap (werr_walk (node_werr_inst V E S T s t Wn fq sc ign isint k)) (nedge v))%Q) /\
+  (forall i e, In i (layers k) -> In e E ->
+     (inject_Z (traversals e (Pn i)) <= cap (werr_walk (node_werr_inst V E S T s t Wn fq sc ign isint k)) (cn e))%Q) /\
+  (forall i v, In i (layers k) -> In v (NodeErrE2E.nodes_basic V ign sc) ->
+     (w i * inject_Z (visits v (Pn i)) <= x_wmax (node_werr_inst V E S T s t Wn fq sc ign isint k))%Q) /\
+  (forall v, In v (NodeErrE2E.nodes_basic V ign sc) ->
+     (Qabs.Qabs (fq v - node_wexplains k Pn w v) <= x_wmax (node_werr_inst V E S T s t Wn fq sc ign isint k))%Q).
+Proof. exact node_klaec_reading. Qed.
+Print Assumptions C07_node_cyclic_caps_reading.
+
+(* non-vacuity with a self-loop and a NON-ZERO optimum: 1 -> 2 -> 3 with a self-loop at 2, node weights 3, 6, 1, one walk: every premise
+   about the caller's input holds; the walk 1 2 2 2 3 of weight 2 (three visits of node 2) is within the caps and costs 2; and every
+   weighted walk of the graph costs at least 2 (each walk visits 1 and 3 exactly once) *)
+Example C07_node_cyclic_self_loop_nonzero_optimum :
+  NoDup lxV /\ NoDup lxE /\ (forall e, In e lxE -> In (fst e) lxV /\ In (snd e) lxV) /\
+  ~ In 100%N (expV lxV) /\ ~ In 101%N (expV lxV) /\ 100%N <> 101%N /\ (forall v, In v lxV -> ~ In v [] -> In v lxV) /\
+  (forall v, In v lxV -> (0 <= wxsc v)%Q) /\
+  node_walks lxV lxE [] [] 1 lxPn /\ visits 2%N (lxPn 0%N) = 3%Z /\
+  node_klaec_adm lxV lxE [] [] 100%N 101%N lxV wxfq wxsc [] false 1 lxPn lxw /\
+  (node_klaec_cost lxV wxfq wxsc [] 1 lxPn lxw == 2)%Q /\
+  (forall Pn w, node_walks lxV lxE [] [] 1 Pn -> (2 <= node_klaec_cost lxV wxfq wxsc [] 1 Pn w)%Q).
+Proof.
+  destruct wx_premises as (A1 & A2 & A3 & A4 & A5 & A6 & A7 & A8 & A9 & A10 & A11 & A12 & A13 & _).
+  exact (conj A1 (conj A2 (conj A3 (conj A4 (conj A5 (conj A6 (conj A7 (conj A8 (conj A9 (conj A10 (conj A11 (conj A12 A13)))))))))))).
+Qed.
+Print Assumptions C07_node_cyclic_self_loop_nonzero_optimum.
+
+(* the SOLVER hypotheses (sat a + optimality of a) of the theorem above are satisfiable on the self-loop instance: an optimal satisfying
+   assignment exists and its objective is 2 (non-zero) *)
+Example C07_node_cyclic_solver_hypotheses_satisfiable :
+  exists a, sat a (encode_klae_cycles (node_werr_inst lxV lxE [] [] 100%N 101%N lxV wxfq wxsc [] false 1)) /\
+    (forall b, sat b (encode_klae_cycles (node_werr_inst lxV lxE [] [] 100%N 101%N lxV wxfq wxsc [] false 1)) -> (objective a (encode_klae_cycles (node_werr_inst lxV lxE [] [] 100%N 101%N lxV wxfq wxsc [] false 1)) <= objective b (encode_klae_cycles (node_werr_inst lxV lxE [] [] 100%N 101%N lxV wxfq wxsc [] false 1)))%Q) /\
+    (objective a (encode_klae_cycles (node_werr_inst lxV lxE [] [] 100%N 101%N lxV wxfq wxsc [] false 1)) == 2)%Q.
+Proof. exact (proj1 wx_solver_hypotheses). Qed.
+Print Assumptions C07_node_cyclic_solver_hypotheses_satisfiable.
